@@ -253,4 +253,49 @@ def eqLit (t : Ty) (e : Atom) (flow : Bool) : Ty :=
     if isNever i then t else i
   else removeApply t e
 
+/-! ### assignment from a variable: right-hand sides that are arbitrary types -/
+
+/-- `is_exact_assignment_expr_type` on a member -/
+def Atom.isExact : Atom → Bool
+  | .nil | .boolC _ | .intC _ | .fltC _ | .strC _ => true
+  | _ => false
+
+/-- `preserves_assignment_expr_type`: a table constant, or `nil`/literal types and unions of them -/
+def preserves (t : Ty) : Bool :=
+  (match t with | [.tblC _] => true | _ => false) || t.all Atom.isExact
+
+/-- `can_use_structural_union` (`type_ops/union_type.rs`): no pairwise union rule can apply to the batch -/
+def canUseStructural (ts : List Ty) : Bool :=
+  ts.all (fun t => t.length == 1) &&
+  (let as := ts.flatten
+   let hasNumber := as.contains .number
+   let variant := as.any fun a => match a with | .integer | .intC _ | .fltC _ => true | _ => false
+   let hasInteger := as.contains .integer
+   let hasIntC := as.any fun a => match a with | .intC _ => true | _ => false
+   let hasString := as.contains .string
+   let hasStrC := as.any fun a => match a with | .strC _ => true | _ => false
+   let hasBoolean := as.contains .boolean
+   let boolCs := (as.filter fun a => match a with | .boolC _ => true | _ => false).length
+   let hasTable := as.contains .table
+   let hasTblC := as.any fun a => match a with | .tblC _ => true | _ => false
+   !(hasNumber && variant || hasInteger && hasIntC || hasString && hasStrC || hasBoolean && boolCs > 0 ||
+     boolCs > 1 || hasTable && hasTblC))
+
+/-- `TypeOps::union_all` -/
+def unionAll (ts : List Ty) : Ty :=
+  let ts' := ts.filter fun t => !isNever t
+  if ts'.isEmpty then [.never]
+  else if canUseStructural ts' then fromVec ts'
+  else ts'.foldl unionTy [.never]
+
+/-- `narrow_down_type(source, target, None)` for an arbitrary target (a union target keeps the members that narrow) -/
+def narrowDownTy (s : Ty) (t : Ty) : Option Ty :=
+  match t with
+  | [e] => narrowDown s e
+  | _ =>
+    if tyEq s t then some s
+    else match t.filterMap (fun e => narrowDown s e) with
+      | [] => none
+      | parts => some (unionAll parts)
+
 end Flow
